@@ -54,10 +54,16 @@ def build(spec):
     p.grid = emg3d.TensorMesh(h, origin=origin)
     grid = p.grid
     freqs = sorted(float(f) for f in spec['freq'])
-    # background conductivity from induction number at the middle frequency
+    # Background conductivity such that the largest extent of the grid is
+    # alpha = 0.5..4 skin depths at the middle frequency (drawn through
+    # 'lgind' in [-2, 0.3]); responses then stay well above the accuracy of
+    # the solver (a response 30 skin depths away is numerical noise).
     fmid = freqs[len(freqs)//2]
-    bg = 10.0**spec['lgind']/(2*np.pi*fmid*gen.mu_0*spec['grid']['scale']**2)
+    alpha = 0.5 + (spec['lgind']+2.0)/2.3*3.5
+    extent = max(hh.sum() for hh in h)
+    bg = 2*alpha**2/(2*np.pi*fmid*gen.mu_0*extent**2)
     p.bg = bg
+    p.skin_depths = alpha
     p.model, p.cond = gen.build_model(grid, spec['model'], bg)
     p.mapping = spec['model']['mapping']
     p.case = spec['model']['case']
@@ -238,6 +244,24 @@ def all_converged(sim, which='efield'):
             if i['exit'] != 0:
                 return False
     return True
+
+
+def data_converged(p, sim, rtol=1e-6):
+    """Precondition of the finite-difference oracles: the synthetic data do
+    not depend on the solver tolerance, i.e. they are not numerical noise.
+    Recomputes the data with a 100 times looser tolerance."""
+    import emg3d
+    opts = dict(SOLVER)
+    opts['tol'] = 100*SOLVER['tol']
+    sv = emg3d.Survey(p.sources, p.receivers, p.freqs)
+    s2 = make_sim(p, sv, sim.model.copy(), solver_opts=opts)
+    s2.compute()
+    a = sim.data.synthetic.data
+    b = s2.data.synthetic.data
+    m = np.isfinite(a) & np.isfinite(b)
+    if not m.any():
+        return True
+    return bool(np.all(np.abs(a-b)[m] <= rtol*np.abs(a)[m]))
 
 
 def observed_from_true(p):
